@@ -92,6 +92,8 @@ int cmd_ieee (int argc, char **argv) ;
 void op_fsize (char **tok, int ntok) ;
 /* tmpenv.c (C16: TMPDIR missing / a file / blocked, so that psf_open_tmpfile takes its fallback) */
 void op_tmpenv (char **tok, int ntok) ;
+/* shortio.c (C07 / C14: read () / write () interposed -- short transfers and EINTR on real descriptors) */
+void op_shortio (char **tok, int ntok) ;
 
 void iolog_account (int *blocks, long *bytes) ;
 
